@@ -388,3 +388,36 @@ def r9(cx):
     c12.r6(cx)
     cx.obligations = ob0 + len(cx.instances[ib:])
     cx.discharged = di0 + len([i for i in cx.instances[ib:] if i["verdict"] == "holds"])
+
+
+@rule("C03", "R10", "the merged chunk's registered time range is computed over ALL its rows: Compactor::timestamp_bounds takes the minimum and the maximum with the aggregate kernels "
+      "(arrow::compute::min / max) over the timestamp column - not from the first and last row (sources of a level >= 1 group can overlap in time, so the last row need not hold the "
+      "largest timestamp), because time-range lookups and retention trust that range")
+def r10(cx):
+    fk = CMP + "timestamp_bounds"
+    b = cx.body(fk)
+    if b is None:
+        cx.violation(fk, "anchor-missing", "body not found", [])
+        return
+    mins = [bi for bi, t in b.calls() if re.search(r"(compute|aggregate)::min$", t["callee"])]
+    maxs = [bi for bi, t in b.calls() if re.search(r"(compute|aggregate)::max$", t["callee"])]
+    picks = [bi for bi, t in b.calls() if re.search(r"PrimitiveArray::<T>::(value|value_unchecked)$|::(first|last)$", t["callee"])]
+    ok_exits = [e for e in M.exit_defs(b) if e[2] == "ok"]
+    cx.floor("Ok exits of timestamp_bounds", len(ok_exits), 1, fk)
+    bad = None
+    for (bi, si, _) in ok_exits:
+        if si == M.T:
+            continue
+        rv = b.blocks[bi]["stmts"][si]["rv"]
+        if rv["k"] != "agg" or not rv.get("ops"):
+            continue
+        o = M.operand_origins(b, rv["ops"][0], at=(bi, si), adapters=M.PURE_ADAPTERS | {tt["callee"] for _, tt in b.calls() if tt["callee"].startswith(("std::option::Option::", "std::result::Result::"))})
+        srcs = {x[1][0] for x in o if x[0] == "call"}
+        if not (srcs & set(mins)) or not (srcs & set(maxs)) or (srcs & set(picks)):
+            bad = (bi, si)
+    if mins and maxs and not picks and not bad:
+        cx.passed(fk, "bounds-from-min-max-kernels", [b.sp(mins[0]), b.sp(maxs[0])])
+    else:
+        sp = b.sp(*bad) if bad else b.j["span"]
+        cx.violation(fk, "bounds-from-min-max-kernels", "%s: the time range registered for a merged chunk is not the min / max over the whole timestamp column (%s): rows above the registered maximum are "
+                     "pruned from time-range lookups and can be dropped early by retention" % (sp, "it reads individual rows" if picks else "no aggregate kernel feeds it"), [sp])
